@@ -27,6 +27,7 @@ type E1Spec struct {
 	HFlags   int
 	AbsentIndex bool
 	Foreign  *ForeignSpec
+	TornBytes int
 }
 
 type E1Stats struct {
@@ -48,7 +49,7 @@ func ExploreE1(p *pool.Pool, spec E1Spec, rep *Report, deadline time.Time) E1Sta
 	// initial state
 	frontier := [][]ops.Op{}
 	{
-		job := &E1Job{Cfg: spec.Cfg, Setup: spec.Setup, Hist: nil, Oracles: spec.Oracles, AllJ: spec.AllJ, Level: spec.Level, HInit: spec.HInit, HFlags: spec.HFlags, AbsentIndex: spec.AbsentIndex, Foreign: spec.Foreign}
+		job := &E1Job{Cfg: spec.Cfg, Setup: spec.Setup, Hist: nil, Oracles: spec.Oracles, AllJ: spec.AllJ, Level: spec.Level, HInit: spec.HInit, HFlags: spec.HFlags, AbsentIndex: spec.AbsentIndex, Foreign: spec.Foreign, TornBytes: spec.TornBytes}
 		p.Map("e1", []interface{}{job}, func(i int, resp *pool.Response) {
 			st.Transitions++
 			if resp.Err != "" {
@@ -83,7 +84,7 @@ func ExploreE1(p *pool.Pool, spec E1Spec, rep *Report, deadline time.Time) E1Sta
 		for _, h := range frontier {
 			for _, op := range spec.Alphabet {
 				hist := append(append([]ops.Op{}, h...), op)
-				jobs = append(jobs, &E1Job{Cfg: spec.Cfg, Setup: spec.Setup, Hist: hist, Oracles: spec.Oracles, AllJ: spec.AllJ, Level: spec.Level, HInit: spec.HInit, HFlags: spec.HFlags, AbsentIndex: spec.AbsentIndex, Foreign: spec.Foreign})
+				jobs = append(jobs, &E1Job{Cfg: spec.Cfg, Setup: spec.Setup, Hist: hist, Oracles: spec.Oracles, AllJ: spec.AllJ, Level: spec.Level, HInit: spec.HInit, HFlags: spec.HFlags, AbsentIndex: spec.AbsentIndex, Foreign: spec.Foreign, TornBytes: spec.TornBytes})
 			}
 		}
 		next := [][]ops.Op{}
